@@ -235,4 +235,4 @@ def run_infinite(spec):
     return {'nontrivial': True, 'classes': ['inf-engine:' + kind, 'inf-mixer:%s' % tags['mixer'], 'L=%d' % L]}
 
 
-SUBCHECKS.append(Sub('infinite', inf_specs, run_infinite, quick=16, thorough=3000))
+SUBCHECKS.append(Sub('infinite', inf_specs, run_infinite, quick=16, thorough=320))
